@@ -72,7 +72,10 @@ Definition obs_ok (r : dmgr * dstate * outcome) (x : expect) : bool :=
   && index_ok (m_rdeps m) (x_rdeps x) && index_ok (m_rtasks m) (x_rtasks x)
   && index_ok (m_deptasks m) (x_deptasks x) && index_ok (m_tartasks m) (x_tartasks x)
   && list_eqb (fun p q => path_eqb (fst p) (fst q) && Z.eqb (snd p) (snd q))
-              (filter (fun p => is_task (fst p) m) (d_prev s)) (x_prev x)
+              (filter (fun p => match aget path_eqb (fst p) (m_tasks m) with
+                                | Some t => match t_act t with AKnob _ _ => true | _ => false end
+                                | None => false
+                                end) (d_prev s)) (x_prev x)
   && Bool.eqb (m_frozen m) (x_frozen x).
 
 (* a case: initial store, operations, expected observation after each *)
